@@ -28,6 +28,9 @@ pub enum Case {
   ArithJson { base: i64, secs: i64, nanos: i32, sub: bool },
   /// `Timestamp::now_utc()` (the one constructor that starts from an instant with nanoseconds).
   Now,
+  /// Two strings offered one after the other on the same thread: what the second one yields must not depend on the
+  /// first (same local date-time and fraction, two different offsets: equal length, long common prefix).
+  ParseSeq { local_unix: i64, frac: String, off_a: i32, off_b: i32 },
 }
 
 const UNITS: [(&str, i128); 5] = [
@@ -267,6 +270,18 @@ pub fn check(case: &Case, obs: &mut Obs) -> CheckResult {
       }
       Ok(())
     }
+    Case::ParseSeq { local_unix, frac, off_a, off_b } => {
+      let (Some(a), Some(b)) = (render(*local_unix, *off_a, frac, 'T', None), render(*local_unix, *off_b, frac, 'T', None)) else {
+        obs.discard("not-renderable");
+        return Ok(());
+      };
+      obs.nontrivial();
+      obs.label(if a.len() == b.len() && a.len() > 32 { "sequence:long-common-prefix" } else { "sequence:short" });
+      // every route once with the first string, then the full check of the second
+      let json = serde_json::to_string(&a).unwrap_or_default();
+      let _ = catch(|| (Timestamp::parse(&a).is_ok(), Timestamp::from_str(&a).is_ok(), Timestamp::from_json(&json).is_ok()));
+      check(&Case::Parse { s: b }, obs)
+    }
     Case::Now => {
       let t = match catch(Timestamp::now_utc) {
         Ok(t) => t,
@@ -456,6 +471,21 @@ fn arith_grid() -> impl Iterator<Item = Case> {
   })
 }
 
+fn parse_seq_strategy() -> impl Strategy<Value = Case> {
+  (
+    base_strategy(),
+    prop::sample::select(vec!["", ".1", ".123", ".1234567", ".12345678", ".123456789"]),
+    -(23 * 60 + 59)..=(23 * 60 + 59i32),
+    prop_oneof![Just(1i32), Just(-1), Just(30), Just(60), -120..=120i32],
+  )
+    .prop_map(|(local_unix, frac, off_a, d)| Case::ParseSeq {
+      local_unix,
+      frac: frac.to_string(),
+      off_a,
+      off_b: (off_a + d).clamp(-(23 * 60 + 59), 23 * 60 + 59),
+    })
+}
+
 fn arith_json_grid() -> impl Iterator<Item = Case> {
   let bases = [MIN_UNIX, MIN_UNIX + 1, -1, 0, 1, 951782400, MAX_UNIX - 1, MAX_UNIX];
   let durations: [(i64, i32); 14] = [
@@ -615,6 +645,8 @@ pub fn run(ctx: &mut Ctx) {
   ctx.proptest("from-unix", ctx.pick(10_000, 500_000), unix_strategy, check);
   ctx.proptest("arith", ctx.pick(20_000, 1_000_000), arith_strategy, check);
   ctx.proptest("cmp", ctx.pick(5_000, 200_000), cmp_strategy, check);
+  ctx.proptest("parse-sequences", ctx.pick(10_000, 500_000), parse_seq_strategy, check);
+  ctx.require_class("parse-sequences:sequence:long-common-prefix", 500);
   ctx.exhaustive("arith-json-grid", arith_json_grid, check);
   ctx.proptest("arith-json", ctx.pick(10_000, 500_000), arith_json_strategy, check);
 
